@@ -758,6 +758,10 @@ PAYLOADS = [  # (payload class id, text)
     ("braces", "a{b}c"),
     ("hash", "a # b"),
     ("long", "lorem-ipsum dolor sit amet " * 8 + "end"),
+] + [
+    # python-looking prose with nothing "dangerous" in it: after re-wrapping (docstrings wrap at ~88 columns) the snippet lands at the
+    # beginning of a line for SOME amount of text in front of it; whatever scans generated method text for signatures must not see it
+    (f"code-prose-{k}", " ".join(["lorem"] * k + ["async def main(client): return await client.ping()"])) for k in (0, 8, 9, 13, 14, 15, 16, 17, 21, 22)
 ]
 
 # position id -> (kind, owner file(s) relative to the package, or None when the position shares a file)
